@@ -2,6 +2,7 @@ package fenv
 
 import (
 	"fmt"
+	"runtime"
 	"sort"
 	"sync"
 
@@ -34,6 +35,9 @@ type Env struct {
 	hdrIssued bool
 
 	EverOverflow bool // some transaction enabled the overflow area on this file
+	ExtentLimit  uint // bound of the file extent after a max size change (0: the configured max size)
+	opening      bool // a file is being opened (its internal transactions are observed)
+	openGID      uint64
 	switched     bool // the running commit passed commit/switched
 	injAtBegin   int  // injected failures at the begin of the running transaction
 	inCommit  bool
@@ -150,6 +154,11 @@ func (e *Env) St() map[string]interface{} {
 	st := StOf(e.F.VerifSnapshot(true))
 	vol, _ := e.Disk.Snapshot()
 	st["fsz"] = len(vol) // bytes
+	if e.ExtentLimit > 0 && st["maxb"].(uint) > 0 {
+		// after a shrink the file may stay as large as it was: the bound is the larger of the
+		// extent at that time and the new limit
+		st["maxb"] = e.ExtentLimit
+	}
 	st["ovf"] = e.EverOverflow
 	return st
 }
@@ -171,6 +180,11 @@ func (e *Env) Lk() map[string]interface{} {
 // hooks and I/O
 
 func (e *Env) sink(ev txfile.VerifEvent) {
+	if e.opening && e.F == nil && ev.File != nil && goidOf() == e.openGID {
+		// first event of the file that is being opened by this environment
+		e.F = ev.File
+		e.writerID = ev.File.VerifWriterID()
+	}
 	if ev.File != nil && ev.File != e.F {
 		return
 	}
@@ -193,7 +207,9 @@ func (e *Env) sink(ev txfile.VerifEvent) {
 		e.mu.Unlock()
 	case "commit/pending":
 		e.phase, e.inCommit, e.hdrIssued = "data", true, false
-		e.Emit(core.Event{"ev": "CommitBegin"})
+		if !e.opening {
+			e.Emit(core.Event{"ev": "CommitBegin"})
+		}
 	case "commit/serialize-wal":
 		e.phase = "wal"
 	case "commit/serialize-alloc":
@@ -203,8 +219,10 @@ func (e *Env) sink(ev txfile.VerifEvent) {
 	case "commit/header-requested":
 		e.hdrIssued = true
 	case "commit/switched":
-		e.Emit(core.Event{"ev": "CommitSwitched", "st": e.St()})
-		e.applyTxToLive()
+		if !e.opening {
+			e.Emit(core.Event{"ev": "CommitSwitched", "st": e.St()})
+			e.applyTxToLive()
+		}
 	}
 	if e.OnPoint != nil && ev.File != nil {
 		e.OnPoint(ev.Point)
@@ -723,4 +741,60 @@ func ReadLogical(f *txfile.File) (root uint64, pages [][2]interface{}, model map
 		model[id] = q
 	}
 	return root, pages, model, nil
+}
+
+// Resize closes the file and opens it again with a new maximum size (FlagUpdMaxSize).
+func (e *Env) Resize(newMax uint64, prealloc bool) error {
+	vol, _ := e.Disk.Snapshot()
+	before := uint(len(vol))
+	// the extent the file already claims: pages up to the end markers may not have been written yet
+	snap := e.F.VerifSnapshot(false)
+	end := snap.DataEnd
+	if snap.MetaEnd > end {
+		end = snap.MetaEnd
+	}
+	if uint(end)*uint(e.PS) > before {
+		before = uint(end) * uint(e.PS)
+	}
+	if err := e.F.Close(); err != nil {
+		return err
+	}
+	e.unsinkOld()
+	e.Disk.Reopen()
+	opts := txfile.Options{MaxSize: newMax, Flags: txfile.FlagUpdMaxSize, Prealloc: prealloc}
+	// the internal transactions of the open write pages: keep classifying them
+	e.F, e.opening, e.openGID = nil, true, goidOf()
+	e.unsink = core.AddHookSink(e.sink)
+	f, err := txfile.VerifOpenWith(e.Disk, opts)
+	e.opening = false
+	if err != nil {
+		e.unsinkOld()
+		e.Emit(core.Event{"ev": "ReopenFailed", "err": ErrKind(err), "msg": fmt.Sprintf("%+v", err), "resize": newMax})
+		return err
+	}
+	e.F = f
+	e.writerID = f.VerifWriterID()
+	e.ExtentLimit = before
+	if uint(newMax) > before {
+		e.ExtentLimit = uint(newMax)
+	}
+	if newMax == 0 {
+		e.ExtentLimit = 0
+	}
+	e.Emit(core.Event{"ev": "OpenResize", "newmax": newMax / uint64(e.PS), "prealloc": prealloc, "st": e.St()})
+	return nil
+}
+
+func goidOf() uint64 {
+	var buf [64]byte
+	n := runtime.Stack(buf[:], false)
+	b := buf[len("goroutine "):n]
+	var id uint64
+	for _, c := range b {
+		if c < '0' || c > '9' {
+			break
+		}
+		id = id*10 + uint64(c-'0')
+	}
+	return id
 }
